@@ -152,8 +152,15 @@ def _module(def_path):
     return "::".join(mod)
 
 
+MAX_SITES = 6
+# helper families the rules treat as units (responders build the HTTP answer: their own `?` must not appear inside api::handle)
+ROLE_PREFIXES = ("xs::api::response_",)
+MAX_HELPER_BLOCKS = 60
+
+
 def single_caller_helpers(facts, anchors, pinned):
-    """[(anchor_body, call_bb, helper_body)] candidates: crate-local sync fns with exactly one live call site, located in an anchor."""
+    """[(anchor_body, call_bb, helper_body)] : private, synchronous, small helpers of the anchor's own module whose call sites
+    (one, or a few) ALL lie in anchor bodies.  Every site gets its own spliced copy; the helper body itself is then hidden."""
     sites = {}
     for b in facts.all_bodies():
         live = b.live_blocks()
@@ -162,25 +169,29 @@ def single_caller_helpers(facts, anchors, pinned):
                 sites.setdefault(c.fn, []).append((b, c))
     out = []
     for fn, ss in sites.items():
-        if len(ss) != 1 or fn in pinned:
+        if len(ss) > MAX_SITES or fn in pinned:
             continue
-        (b, c) = ss[0]
-        if b.def_ not in anchors:
+        if any(b.def_ not in anchors for (b, c) in ss):
             continue
         h = facts.body(fn)
-        if h is None or h.is_coroutine or h.kind not in ("Fn", "AssocFn") or h.crate is not b.crate:
+        if h is None or h.is_coroutine or h.kind not in ("Fn", "AssocFn"):
             continue
-        # only private helpers living in the anchor's own module ("extract function" refactors), never API items
-        if not (h.vis or "").startswith("Restricted") or _module(h.def_) != _module(facts.enclosing_fn(b)):
+        if len(ss) > 1 and len(h.blocks) > MAX_HELPER_BLOCKS:
             continue
-        if fn in _names_used_by_rules():
+        if any(h.crate is not b.crate for (b, c) in ss):
+            continue
+        # only private helpers living in the anchors' own module ("extract function" refactors), never API items
+        if not (h.vis or "").startswith("Restricted") or any(_module(h.def_) != _module(facts.enclosing_fn(b)) for (b, c) in ss):
+            continue
+        if fn in _names_used_by_rules() or fn.startswith(ROLE_PREFIXES):
             continue
         if any(cc.fn == fn for cc in h.calls()):
             continue   # recursive
         rets = h.return_defs()
         if len(rets) == 1 and rets[0][1][0] == "agg" and rets[0][1][1].get("agg") in ("coroutine", "closure"):
             continue   # async fn shell
-        out.append((b, c.bb, h))
+        for (b, c) in ss:
+            out.append((b, c.bb, h))
     return out
 
 
